@@ -330,7 +330,7 @@ func c06(seed int64, thorough bool) {
 	c06tx = socketcan.NewTransmitter(c06conn)
 	basis := []can.Data{dataOf(0), dataOf(^uint64(0)), dataOf(0x0807060504030201), dataOf(0xf0e0d0c0b0a09080)}
 	for i := 0; i < 64; i++ {
-		basis = append(basis, dataOf(1<<uint(i)))
+		basis = append(basis, dataOf(1<<uint(i)), dataOf(^(uint64(1) << uint(i))))
 	}
 	nb := 0
 	payload := func() can.Data {
